@@ -176,6 +176,27 @@ Theorem C14_oscore_only_gate : forall dec s o m',
 Proof. exact osc_only_gate. Qed.
 Print Assumptions C14_oscore_only_gate.
 
+(* context lookup rule (RFC 8613 8.2 step 2), whatever the AEAD: a request is only verified
+   against the context whose Recipient ID is the received kid and whose ID Context is exactly the
+   received kid context (none = empty) - never a prefix, an extension or another value *)
+Theorem C14_context_lookup_rule : forall dec s o m',
+  osc_unprotect_req_gen dec s o = Some m' ->
+  exists ov piv kc,
+    osc_find_opt OSC_OPT (m_opts o) = Some ov /\
+    osc_opt_decode (snd ov) = Some (piv, kc, Some (sc_rid s)) /\
+    osc_ctx_bytes kc = osc_ctx_bytes (sc_idctx s).
+Proof. exact osc_request_lookup_rule. Qed.
+Print Assumptions C14_context_lookup_rule.
+
+Theorem C14_kid_context_of_other_length_rejected : forall dec s o c ov piv kc kid,
+  sc_idctx s = Some c ->
+  osc_find_opt OSC_OPT (m_opts o) = Some ov ->
+  osc_opt_decode (snd ov) = Some (piv, kc, kid) ->
+  len (osc_ctx_bytes kc) <> len c ->
+  osc_unprotect_req_gen dec s o = None.
+Proof. exact osc_request_kid_context_length. Qed.
+Print Assumptions C14_kid_context_of_other_length_rejected.
+
 (* ---- tamper rejection UNDER AN ASSUMED IDEAL AEAD ----
    The premise [forall n a c p, dec K n a c = Some p -> sent n a c] (ideal ciphertext integrity:
    under key K nothing decrypts except what was emitted under K) is NOT proved for AES-CCM - with
